@@ -22,7 +22,7 @@ Record c18case := {
   i_agg_current : list Q;
   i_agg_power : list Q;
   (* constraint_currents(sim, return_magnitudes=flag, constraint_ids=ids) -> items of the returned dict *)
-  i_cc : list (bool * option (list Z) * list (Z * series (F:=Q)));
+  i_cc : list (bool * option (list Z) * option (list (Z * series (F:=Q))));   (* None = raises *)
   i_requested : Q; i_delivered : Q; i_proportion : option Q;
   i_met : list (Q * option Q);                      (* threshold -> proportion_of_demands_met *)
   i_nema : list (list Z * option (list (option Q))); (* phase ids -> current_unbalance (None = raises; inner None = nan) *)
@@ -45,12 +45,12 @@ Definition check_c18 (c : c18case) : bool :=
   Qlist_close (aggregate_current QO tr) (i_agg_current c)
   && Qlist_close (aggregate_power QO QA tr) (i_agg_power c)
   (* the implementation-shaped model against the implementation *)
-  && forallb (fun r => let '(flag, ids, out) := r in dict_close (constraint_currents QO QA tr flag ids) out) (i_cc c)
+  && forallb (fun r => let '(flag, ids, out) := r in option_eqb dict_close (constraint_currents_call QO QA tr flag ids) out) (i_cc c)
   && Qclose (total_energy_requested QO tr) (i_requested c)
   && Qclose (total_energy_delivered QO tr) (i_delivered c)
   && oQ_close (proportion_of_energy_delivered QO QA tr) (i_proportion c)
   && forallb (fun r => oQ_close (proportion_of_demands_met QO QA tr (fst r)) (snd r)) (i_met c)
-  && forallb (fun r => option_eqb (list_eqb oQ_close) (current_unbalance QO QA tr (fst r)) (snd r)) (i_nema c)
+  && forallb (fun r => option_eqb (list_eqb oQ_close) (current_unbalance_call QO QA tr (fst r)) (snd r)) (i_nema c)
   && Qlist_close (datetimes_minutes QO QA tr) (i_minutes c)
   (* the SPEC evaluated by the model against the implementation-shaped model (both in Coq) *)
   && Qlist_close (map (aggregate_current_spec QO tr) (periods tr)) (aggregate_current QO tr)
